@@ -161,6 +161,18 @@ impl<'a> SsaAnalysisState<'a> {
         self.context.push_scope();
         for m in toplevel.members_iter() {
           let id = &m.name;
+          // The constructors generated from the type definition (`init` of a struct, one function per enum
+          // variant) live in the same namespace: a member with such a name would silently be replaced.
+          let generated_constructor_loc = match type_definition {
+            Some(TypeDefinition::Struct { loc, .. }) if id.name == PStr::INIT => Some(*loc),
+            Some(TypeDefinition::Enum { variants, .. }) => {
+              variants.iter().find(|v| v.name.name == id.name).map(|v| v.name.loc)
+            }
+            _ => None,
+          };
+          if let Some(previous) = generated_constructor_loc {
+            self.error_set.report_name_already_bound_error(id.loc, id.name, previous);
+          }
           self.define_id(id.name, id.loc);
         }
         self.context.pop_scope();
